@@ -32,5 +32,5 @@ GbkStructure(u, g) ==
           /\ (g[i] > 128 => i < Len(g) /\ g[i] # 255 /\ g[i + 1] >= 64 /\ g[i + 1] # 127 /\ g[i + 1] # 255)
           /\ (u[j] < 128 <=> g[i] < 128) /\ (u[j] < 128 => g[i] = u[j])
           /\ (g[i] = 128 <=> (j + 2 <= Len(u) /\ u[j] = 226 /\ u[j + 1] = 130 /\ u[j + 2] = 172))     \* the euro sign
-GbkLaw == l = 0 \/ E.ev # "gbk" \/ (Mat(E.back) = Mat(E.utf8) /\ Mat(E.gbk) = Mat(E.ref) /\ GbkStructure(Mat(E.utf8), Mat(E.gbk)))
+GbkLaw == l = 0 \/ E.ev # "gbk" \/ (("heldsame" \notin DOMAIN E \/ E.heldsame) /\ Mat(E.back) = Mat(E.utf8) /\ Mat(E.gbk) = Mat(E.ref) /\ GbkStructure(Mat(E.utf8), Mat(E.gbk)))
 =============================================================================
